@@ -117,6 +117,25 @@ func body(s *simrt.Sim, tier string) {
 	defer os.RemoveAll(root)
 	defer simos.SetHook(nil)
 	target := filepath.Join(root, "base", "tgt")
+	// how the caller names the target: absolute, with a trailing separator, or relative to the working directory
+	given := target
+	switch s.Choose(8, "targetstyle") {
+	case 0:
+		given = target + string(filepath.Separator)
+	case 1:
+		given = filepath.Join("base", "tgt")
+	case 2:
+		given = "." + string(filepath.Separator) + filepath.Join("base", "tgt")
+	case 3:
+		given = filepath.Join(root, "base", "..", "base", "tgt")
+	}
+	if !filepath.IsAbs(given) {
+		if err := os.Chdir(root); err != nil {
+			s.Fail("infra-scratch", err.Error())
+			return
+		}
+		defer os.Chdir(scratch)
+	}
 
 	nwrites := 1 + s.Choose(4, "nwrites")
 	var sets []int
@@ -149,7 +168,7 @@ func body(s *simrt.Sim, tier string) {
 		}
 		ents, err := os.ReadDir(target)
 		if err != nil {
-			s.Fail("target-dangling", fmt.Sprintf("%s: target does not resolve to a directory: %v", where, err))
+			s.Fail("target-dangling", fmt.Sprintf("%s: target does not resolve to a directory: %s", where, strings.ReplaceAll(err.Error(), root, "<root>")))
 			return
 		}
 		got := map[string][]byte{}
@@ -165,7 +184,7 @@ func body(s *simrt.Sim, tier string) {
 			s.Fail("target-partial-or-mixed", fmt.Sprintf("%s: target holds {%s}, the last published Write had {%s}\n%s", where, render(got), render(fileSets[sets[current]]), strings.Join(log, "\n")))
 		}
 	}
-	d := dir.New(dir.Options{Log: stublog.Log{}, Target: target})
+	d := dir.New(dir.Options{Log: stublog.Log{}, Target: given})
 	faultsLeft := 0
 	if faultWrite >= 0 {
 		faultsLeft = 1
@@ -179,6 +198,9 @@ func body(s *simrt.Sim, tier string) {
 		h := &hook{s: s, faultStep: -1, check: check, renamed: func() {
 			current = pending
 			if p, err := os.Readlink(target); err == nil {
+				if !filepath.IsAbs(p) {
+					p = filepath.Join(filepath.Dir(target), p)
+				}
 				published = append(published, p)
 			}
 		}}
@@ -208,7 +230,7 @@ func body(s *simrt.Sim, tier string) {
 		if err != nil {
 			errText = strings.ReplaceAll(err.Error(), root, "<root>") // scratch paths differ between worker and replay
 		}
-		log = append(log, fmt.Sprintf("Write #%d {%s}: fault=%q crashed=%v err=%s", i, render(fileSets[sets[i]]), h.fired, crashed, errText))
+		log = append(log, fmt.Sprintf("[target given as %q] Write #%d {%s}: fault=%q crashed=%v err=%s", strings.ReplaceAll(given, root, "<root>"), i, render(fileSets[sets[i]]), h.fired, crashed, errText))
 		s.Logf("%s", log[len(log)-1])
 		check(fmt.Sprintf("after Write #%d", i))
 		if h.fired != "" {
@@ -222,7 +244,7 @@ func body(s *simrt.Sim, tier string) {
 			// after a crash only the disk survives; after a mere error return the caller may equally
 			// well carry on with the same Dir (decided by the tape)
 			if crashed || s.Choose(2, "freshAfterError") == 0 {
-				d = dir.New(dir.Options{Log: stublog.Log{}, Target: target})
+				d = dir.New(dir.Options{Log: stublog.Log{}, Target: given})
 				freshInstance = true
 			}
 			continue
@@ -262,7 +284,7 @@ func body(s *simrt.Sim, tier string) {
 	if anyFault {
 		// recovery: a fresh Dir on the same target must be able to write
 		s.Sleep(time.Nanosecond)
-		d = dir.New(dir.Options{Log: stublog.Log{}, Target: target})
+		d = dir.New(dir.Options{Log: stublog.Log{}, Target: given})
 		pending := len(sets)
 		sets = append(sets, s.Choose(len(fileSets), "recoverset"))
 		h := &hook{s: s, faultStep: -1, check: check, renamed: func() { current = pending }}
